@@ -92,6 +92,14 @@ func c08Edits(base []string) (out [][]string, names []string) {
 			out, names = append(out, s), append(names, fmt.Sprintf("insert %s@%d", k, i))
 		}
 	}
+	for i := 1; i <= len(base); i++ {
+		// slipped in by somebody on the path: a message under the message_seq of the one before it (which a
+		// datagram endpoint may take for a retransmission), not part of the sender's transcript
+		for _, k := range []string{"~SHD", "~CERT"} {
+			s := append(append(cp(base[:i]), k), base[i:]...)
+			out, names = append(out, s), append(names, fmt.Sprintf("slip in %s@%d", k[1:], i))
+		}
+	}
 	for i := range base {
 		if base[i] == "CCS" {
 			// ChangeCipherSpec left out, but the peer switches its keys all the same (what follows is protected)
